@@ -459,7 +459,9 @@ func subStart(args []string) int {
 		res.StartAccepted = f.Load() == 1
 		res.Started = inst != nil && s.Acc
 		res.StartErr = s.Err
-		if inst != nil {
+		if inst != nil && s.Acc {
+			// only a started instance is stopped: what a failed start leaves
+			// behind is another property's business (C08)
 			progress.Add(1)
 			lib.StopWait(inst)
 		}
